@@ -1,6 +1,6 @@
 (** C12 — subscribers see exactly one event per entry that actually entered the replica. *)
 From ID Require Import Model.Actor Model.Ranger Model.Replica Proofs.ActorFacts Proofs.ValidFacts Proofs.RangerFacts.
-From ID Require Import Proofs.FsPutFacts Proofs.RefineFacts Proofs.EventFacts Proofs.ReachFacts Proofs.AckFacts.
+From ID Require Import Proofs.FsPutFacts Proofs.RefineFacts Proofs.EventFacts Proofs.ReachFacts Proofs.AckFacts Proofs.FlagFacts.
 
 (** delivery: every event goes, in order, to every live subscription exactly once *)
 Theorem C12_deliver_spec : forall s ns evs,
@@ -95,6 +95,16 @@ Example C12_marker_by_reconciliation_is_announced :
   d = [(0, RemoteInsert marker 6 true 2); (3, RemoteInsert marker 6 true 2)].
 Proof. vm_compute. repeat split. Qed.
 
+(** the download flag of a remote insert event through the store handle is exactly what the policy
+    stored for the document says for the entry's key (single-entry path; for reconciliation messages
+    the same is part of [C12_reconciliation_events]) *)
+Theorem C12_remote_event_flag_is_policy : forall ks EH MF CAP mss split s ns e ok from st now r,
+  aget s ns = Some r -> ar_sync r = true ->
+  let '(s', reply, d) := astep ks EH MF CAP mss split s (AInsertRemote ns e ok from st now) in
+  reply = AOk ->
+  d = map (fun c => (c, RemoteInsert e from (policy_matches (get_policy (a_tables s) ns) (e_key e)) st)) (live_of s ns).
+Proof. exact remote_insert_event_flag. Qed.
+
 Print Assumptions C12_deliver_spec.
 Print Assumptions C12_remote_insert_events.
 Print Assumptions C12_message_events_are_inserted_valid_values.
@@ -104,3 +114,4 @@ Print Assumptions C12_local_insert_events.
 Print Assumptions C12_local_delete_events.
 Print Assumptions C12_marker_by_reconciliation_is_announced.
 Print Assumptions C12_redelivery_is_silent.
+Print Assumptions C12_remote_event_flag_is_policy.
